@@ -214,6 +214,16 @@ func runC06(c *Ctx, idx int, o *Obs) {
 			ex, err := t.ExistsTip("absent_name_x")
 			o.Check(err == nil && !ex, "lookup_absent", "ExistsTip(absent name) after pruning", inp)
 		}
+		if indexed == 2 {
+			// RemoveTips re-computes the indexes of a tree that had them ("removed tips must not remain in it"):
+			// what it leaves must describe the pruned tree (tip ranks, bitsets, tip counts, depths), see C04
+			before := len(o.Viols)
+			if indexMonitor(o, t, inp+" => "+Trunc(t.Newick(), 1500)); len(o.Viols) > before {
+				o.Viols[len(o.Viols)-1].Detail = what + ": indexes recomputed by RemoveTips: " + o.Viols[len(o.Viols)-1].Kind + ": " + o.Viols[len(o.Viols)-1].Detail
+				o.Viols[len(o.Viols)-1].Kind = "prune_index_wrong"
+			}
+			o.Ev("index_monitor_after_prune", 1)
+		}
 
 		// the same through the command
 		if useCLI && si < 3 {
@@ -336,7 +346,21 @@ func runC06(c *Ctx, idx int, o *Obs) {
 // comma-separated names per line, or everything on one line that is longer than a 4096-byte read buffer
 // (padded with names that are not in any tree, which pruning ignores).
 func tipFileContent(r *rand.Rand, names []string) (string, string) {
-	switch r.Intn(4) {
+	switch r.Intn(6) {
+	case 4: // empty lines are skipped: at the start, between names, at the end
+		var b strings.Builder
+		b.WriteString("\n")
+		for i, n := range names {
+			b.WriteString(n + "\n")
+			if i%2 == 0 {
+				b.WriteString("\n")
+			}
+		}
+		return b.String() + "\n\n", "empty-lines"
+	case 5: // one empty line after the first name only
+		if len(names) > 1 {
+			return names[0] + "\n\n" + strings.Join(names[1:], ",") + "\n", "empty-line-then-comma-line"
+		}
 	case 0:
 		var b strings.Builder
 		for i := 0; i < len(names); i += 3 {
